@@ -67,7 +67,7 @@ impl SchedSpec {
             weak_cas: *rng.pick(&[0, 0, 16, 64, 200]),
             stall: *rng.pick(&[0, 0, 8, 32]),
             starvation: *rng.pick(&[64, 200, 600]),
-            step_cap: 200_000,
+            step_cap: 40_000,
             op_step_bound: 0,
             origin: 0,
         }
@@ -125,6 +125,9 @@ pub struct RunCtx {
     pub op_steps: [u64; MAX_TASKS],
     pub op_name: [&'static str; MAX_TASKS],
     pub suspended_by_scenario: u32,
+    /// per task: wake-ups it delivered to a harness waker / wake attempts of it that found no waker registered
+    pub task_wakes: [u32; MAX_TASKS],
+    pub task_wake_misses: [u32; MAX_TASKS],
     // ---- measurements
     pub switches: u32,
     pub preemptions: u32,
@@ -173,6 +176,8 @@ impl RunCtx {
             op_steps: [0; MAX_TASKS],
             op_name: [""; MAX_TASKS],
             suspended_by_scenario: 0,
+            task_wakes: [0; MAX_TASKS],
+            task_wake_misses: [0; MAX_TASKS],
             switches: 0,
             preemptions: 0,
             sig: 0xcbf29ce484222325,
@@ -543,7 +548,18 @@ fn hook_weak_cas_fails(_loc: &'static Location<'static>) -> bool {
 }
 
 fn hook_probe(name: &'static str) {
-    with_ctx(|ctx| *ctx.probes.entry(name).or_insert(0) += 1);
+    with_ctx(|ctx| {
+        *ctx.probes.entry(name).or_insert(0) += 1;
+        if name == "streams_manager.wake_stream.retried_under_lock" {
+            let t = ctx.cur;
+            ctx.task_wake_misses[t] += 1;
+        }
+    });
+}
+
+/// (wake-ups delivered, wake attempts that found no waker) by the calling simulated task so far
+pub fn my_wake_counters() -> (u32, u32) {
+    with_ctx(|c| (c.task_wakes[c.cur], c.task_wake_misses[c.cur])).unwrap_or((0, 0))
 }
 
 fn hook_sequence_origin() -> u32 {
